@@ -1,9 +1,137 @@
 package main
 
-import "fmt"
+import (
+	"encoding/json"
+	"fmt"
+	"os"
+	"os/exec"
+	"path/filepath"
+	"sort"
+	"strings"
+	"time"
+)
 
-// validate: translator validation (not a deciding step); filled in by validate_*.go
+// validate: translator validation (not a deciding step). Runs the VH_VAL_* harnesses in the engine and natively and
+// requires (a) no assertion failure on either side, (b) identical observations. Writes /verif/evidence/validation.json.
 func validate() int {
-	fmt.Println("validate: ok")
+	t0 := time.Now()
+	p, err := loadProgram("/repo", filepath.Join(verifDir, "harness"))
+	if err != nil {
+		fmt.Println("ENGINE-ERROR load:", err)
+		return 2
+	}
+	hs := harnessesFor(p, "VAL", "")
+	if len(hs) == 0 {
+		fmt.Println("ENGINE-ERROR no validation harness")
+		return 2
+	}
+	cfg := Config{Tier: "quick", Workers: 8, SolverName: "z3", SolverINT: "z3-new", TimeoutMs: 20000, MaxSteps: 50000000, MaxPaths: 1000,
+		Fallbacks: []string{"cvc5", "z3-new"}, FallbackMs: 30000, Budget: 10 * time.Minute}
+	bad := 0
+	engineObs := map[string][]string{}
+	asserts := 0
+	var names []string
+	for _, h := range hs {
+		r := exploreHarness(p, h, cfg)
+		names = append(names, h.Name())
+		for _, n := range r.Asserts {
+			asserts += n
+		}
+		fmt.Printf("validate %s: paths=%d assertions=%d queries=%d undecided=%d violations=%d wall=%.1fs\n", h.Name(), r.Paths, len(r.Asserts), r.Queries, len(r.Undecided), len(r.Viols), r.Wall.Seconds())
+		for _, v := range r.Viols {
+			fmt.Printf("VALIDATION-MISMATCH %s: engine disagrees with the real function: %s (%s) at %s\n", h.Name(), v.Label, v.Msg, v.Pos)
+			bad++
+		}
+		for _, u := range uniqStrings(r.Undecided, 5) {
+			fmt.Printf("VALIDATION-UNDECIDED %s: %s\n", h.Name(), u)
+			bad++
+		}
+		for _, u := range r.EngineErr {
+			fmt.Printf("ENGINE-ERROR %s: %s\n", h.Name(), u)
+			bad++
+		}
+		if r.Paths != 1 && len(r.Viols) == 0 && len(r.EngineErr) == 0 {
+			fmt.Printf("VALIDATION-MISMATCH %s: expected exactly one path (pinned inputs), got %d\n", h.Name(), r.Paths)
+			bad++
+		}
+		engineObs[h.Name()] = r.Observed
+	}
+	// native run
+	tmp, err := os.MkdirTemp("", "verif-validate-")
+	if err != nil {
+		fmt.Println("ENGINE-ERROR", err)
+		return 2
+	}
+	defer os.RemoveAll(tmp)
+	overlay := map[string]string{}
+	files, _ := filepath.Glob(filepath.Join(verifDir, "harness", "zz_verif_*.go"))
+	for _, f := range files {
+		overlay["/repo/"+filepath.Base(f)] = f
+	}
+	var sb strings.Builder
+	sb.WriteString("package astisub\n\nimport (\n\t\"fmt\"\n\t\"testing\"\n)\n\nfunc TestVerifValidate(t *testing.T) {\n")
+	for _, n := range names {
+		sb.WriteString(fmt.Sprintf("\tfmt.Println(\"VHARNESS %s\")\n\tif r := vrunOnce(%s); r != \"\" {\n\t\tt.Errorf(\"%s natively: %%s\", r)\n\t}\n", n, n, n))
+	}
+	sb.WriteString("}\n")
+	tf := filepath.Join(tmp, "zz_verif_validate_test.go")
+	os.WriteFile(tf, []byte(sb.String()), 0o644)
+	overlay["/repo/zz_verif_validate_test.go"] = tf
+	ov, _ := json.Marshal(map[string]interface{}{"Replace": overlay})
+	ovf := filepath.Join(tmp, "overlay.json")
+	os.WriteFile(ovf, ov, 0o644)
+	cmd := exec.Command("timeout", "600", "go", "test", "-v", "-vet=off", "-count=1", "-run", "^TestVerifValidate$", "-overlay", ovf, ".")
+	cmd.Dir = "/repo"
+	cmd.Env = append(os.Environ(), "GOFLAGS=-mod=mod", "GOPROXY=off", "GOSUMDB=off", "GOTOOLCHAIN=local")
+	out, nerr := cmd.CombinedOutput()
+	if nerr != nil {
+		fmt.Printf("VALIDATION-MISMATCH native run failed: %v\n%s\n", nerr, tail(string(out), 30))
+		bad++
+	}
+	nativeObs := map[string][]string{}
+	cur := ""
+	for _, line := range strings.Split(string(out), "\n") {
+		if strings.HasPrefix(line, "VHARNESS ") {
+			cur = strings.TrimPrefix(line, "VHARNESS ")
+		} else if strings.HasPrefix(line, "VOBSERVE ") {
+			nativeObs[cur] = append(nativeObs[cur], strings.TrimPrefix(line, "VOBSERVE "))
+		}
+	}
+	nobs := 0
+	for _, n := range names {
+		a, b := engineObs[n], nativeObs[n]
+		sort.Strings(a)
+		sort.Strings(b)
+		if len(a) != len(b) {
+			fmt.Printf("VALIDATION-MISMATCH %s: %d observations in the engine, %d natively\n", n, len(a), len(b))
+			bad++
+			continue
+		}
+		for i := range a {
+			nobs++
+			if a[i] != b[i] {
+				fmt.Printf("VALIDATION-MISMATCH %s:\n  engine: %s\n  native: %s\n", n, a[i], b[i])
+				bad++
+			}
+		}
+	}
+	ev := map[string]interface{}{"harnesses": names, "assertions_compared_with_real_functions": asserts, "observations_compared_with_native_run": nobs,
+		"mismatches": bad, "wall_s": round2(time.Since(t0).Seconds())}
+	b, _ := json.MarshalIndent(ev, "", " ")
+	os.MkdirAll(filepath.Join(verifDir, "evidence"), 0o755)
+	os.WriteFile(filepath.Join(verifDir, "evidence", "validation.json"), b, 0o644)
+	if bad > 0 {
+		fmt.Printf("validate: FAILED (%d mismatches)\n", bad)
+		return 2
+	}
+	fmt.Printf("validate: ok (%d harnesses, %d model assertions, %d observations identical to the native run, %.1fs)\n", len(names), asserts, nobs, time.Since(t0).Seconds())
 	return 0
+}
+
+func tail(s string, n int) string {
+	lines := strings.Split(s, "\n")
+	if len(lines) > n {
+		lines = lines[len(lines)-n:]
+	}
+	return strings.Join(lines, "\n")
 }
